@@ -125,7 +125,11 @@ def run_pair(base_text, new_text, pack, label):
     pb = parse_text(base_text)
     sb, ms = full_snapshot(pb)
     if pack["mode"] == "string":
-        pn = parse_text(new_text)
+        t = new_text
+        last = t.rstrip("\r\n").rsplit("\n", 1)[-1]
+        if not pack.get("last_newline", True) and "#" in last:
+            t = t.rstrip("\r\n")  # a comment may end the input without a line terminator
+        pn = parse_text(t)
     else:
         from ..harness import workdir
 
